@@ -243,6 +243,7 @@ STR_SIG_U = """
 (declare-fun isalnum (Str) Bool)
 (declare-fun str_le (Str Str) Bool)
 (declare-fun str_of_int (Int) Str)
+(declare-fun valid_uri (Str) Bool)
 (declare-const empty Str)
 """
 
